@@ -293,10 +293,10 @@ theorem _root_.Nrf.Mid.open0 {p0 a1 : Bytes} {aN : List Nat} {v : Nat} {d : Rf24
       p0len := hl
       s_open := e1 }
 
-/-- `multicast_level = lvl` on a node with multicast allowed: the node listens, pipe 0 on the
-    address of the new level -/
-theorem nl_apiSetMulticastLevel (lvl : Int) {s0 s : NetState} (h : NL s0 s)
-    (ham : s0.node.cfg.allowMulticast = true) :
+/-- `multicast_level = lvl`: the node listens — with multicast allowed pipe 0 on the address of
+    the new level, without on the node's own pipe-0 address as before (`pipe0Of` has exactly the
+    case split of the repaired setter; before fix 6a18625 this needed `allowMulticast = true`) -/
+theorem nl_apiSetMulticastLevel (lvl : Int) {s0 s : NetState} (h : NL s0 s) :
     wp anyErr (apiSetMulticastLevel lvl)
       (fun _ s' => NL s0 s' ∧ s'.node.a = { s.node.a with netLvl := (min 4 (max lvl 0)).toNat }) s := by
   obtain ⟨⟨p0, a1, aN, ha, hl⟩, hfr⟩ := h
@@ -328,11 +328,12 @@ theorem nl_apiSetMulticastLevel (lvl : Int) {s0 s : NetState} (h : NL s0 s)
   refine ⟨⟨⟨x, a1, aN, ?_, l4⟩, (hfr.trans f1).trans F.to0⟩, by rw [F.a, hn1]⟩
   rw [F.cfg, F.a, hn1]
   have hcfg : s2.node.cfg = s.node.cfg := by rw [f2.cfg, f1.cfg]
-  have ham' : s.node.cfg.allowMulticast = true := by rw [hfr.cfg]; exact ham
+  have ha2 : s2.node.a = { s.node.a with netLvl := (min 4 (max lvl 0)).toNat } := by rw [f2.a, hn1]
   refine ⟨?_, ha.h1, ha.hN⟩
   unfold pipe0Of
-  rw [if_pos ham']
-  rw [hcfg] at hx
-  exact hx
+  rw [hcfg, ha2] at hx
+  cases ham : s.node.cfg.allowMulticast
+  · rw [ham] at hx; simpa using hx
+  · rw [ham] at hx; simpa using hx
 
 end Nrf.Net
